@@ -5,7 +5,7 @@ def nontrivial(c):
     if not has_uc or "get" not in ops:
         return False
     first_get = ops.index("get")
-    chg = ("peers", "peercb")
+    chg = ("peers", "peercb", "peercb2")
     return any(o in chg for o in ops[first_get:]) or (any(o in chg for o in ops[:first_get]))
 
 
@@ -19,7 +19,8 @@ SPEC = dict(
     nontrivial=nontrivial,
     rule="same generated cases as C12 (real SamplerFactory, 1-4 simulated workers, histories of get/peers/peersfail/setcfg/"
          "clear/wreload/cget/reload plus membership changes split into peerset (source changes) and peercb (callback runs) with "
-         "sampler creations in between; goals 1..1000, 0 and negative; peer counts 0,1,2,3,4,7,10,100,1000,2000 and failing queries); "
+         "sampler creations in between, and peercb2 = two overlapping callbacks around a change (the first parked inside "
+         "GetPeers after its snapshot, the second started meanwhile); goals 1..1000, 0 and negative; peer counts 0,1,2,3,4,7,10,100,1000,2000 and failing queries); "
          "non-trivial = some configuration has a UseClusterSize throughput sampler, a sampler is built and the peer count "
          "changes before or after; distinct by transcript hash",
     trusted_base=["GoalThroughputPerSec read directly from the dynsampler-go structs (no concurrent writer in the harness)",
@@ -30,7 +31,8 @@ SPEC = dict(
              "on any worker, config swaps and reloads: goal_invariant_registry (every registered throughput instance whose "
              "key is tracked has goal max(cfg/peers in force,1), untracked ones their creation goal), goal_invariant (per definition, "
              "when keys determine type and goal), goal_invariant_after_callback (every live UseClusterSize sampler, whatever was "
-             "created between a membership change and its callback), peerCount_after_callback, peerCount_spec, no_cluster_size_fixed (full statement REFUTED by a "
+             "created between a membership change and its callback), goal_invariant_overlapping_callbacks (commit order = read "
+             "order), peerCount_after_callback, peerCount_spec, no_cluster_size_fixed (full statement REFUTED by a "
              "machine-checked witness: a definition without UseClusterSize shares its instance with one that has it; proved "
              "under the no-collision hypothesis). Tied to sample/sample.go by differential replay on the real SamplerFactory "
              "observing GoalThroughputPerSec of every registered dynsampler after every step.",
